@@ -3,6 +3,7 @@
 A program is a list of instructions (JSON-able); `run_task(uid, prog)` is the picklable
 function given to the pool.  Every value returned or raised carries the job's uid so that
 every observation is attributable."""
+import pickle as _pickle
 import signal as _signal
 
 from simos import state
@@ -13,8 +14,12 @@ class Unpicklable:
     def __init__(self, uid):
         self.uid = uid
 
+    # whatever goes wrong while a result is being encoded is an encoding failure of that result: the kind
+    # of exception varies with the job (deterministically)
+    KINDS = (TypeError, ValueError, _pickle.PicklingError, RuntimeError, AttributeError, NotImplementedError)
+
     def __reduce__(self):
-        raise TypeError('cannot pickle result of job %r' % (self.uid,))
+        raise self.KINDS[self.uid % len(self.KINDS)]('cannot pickle result of job %r' % (self.uid,))
 
 
 class TaskError(Exception):
